@@ -303,20 +303,26 @@ def run_check(modname: str, tier: str, seed: int, jobs: int | None = None) -> in
     by_witness = {}
     fine = ("touched", "start_aligned", "past_end", "short", "long")  # report one representative per coarse class
     for v in viols:
-        by_witness.setdefault(jkey({k: x for k, x in v["witness"].items() if k not in fine}), v)
+        by_witness.setdefault(jkey({k: x for k, x in v["witness"].items() if k not in fine}), []).append(v)
     confirmed = []
     rdir = os.path.join(VERIF, "replays", prop)
     unstable = 0
-    for wkey, v in list(by_witness.items())[:12]:
-        runs = []
-        for _ in range(2):  # two separate fresh processes: module-level state of one replay cannot leak into the other
-            with _pool(repo, v["buf"], 1) as ex:
-                try:
-                    runs += ex.submit(_wreplay, modname, v["case"], 1).result()
-                except Exception as e:
-                    runs.append([{"witness": {"kind": "replay-died"}, "detail": {"err": repr(e)}}])
-        # identity = the witnesses (details may carry environment-dependent values such as generated temporary names)
-        stable = len(runs) == 2 and _wkey(runs[0]) == _wkey(runs[1]) and len(runs[0]) > 0
+    for wkey, cands in list(by_witness.items())[:12]:
+        # a violation that depends on what the worker process did before (module-level state poisoned by an earlier case)
+        # does not reproduce from its own case alone: try up to 5 cases of the class and keep the first that replays
+        stable, v = False, cands[0]
+        for cand in cands[:5]:
+            runs = []
+            for _ in range(2):  # two separate fresh processes: module-level state of one replay cannot leak into the other
+                with _pool(repo, cand["buf"], 1) as ex:
+                    try:
+                        runs += ex.submit(_wreplay, modname, cand["case"], 1).result()
+                    except Exception as e:
+                        runs.append([{"witness": {"kind": "replay-died"}, "detail": {"err": repr(e)}}])
+            # identity = the witnesses (details may carry environment-dependent values such as generated temporary names)
+            if len(runs) == 2 and _wkey(runs[0]) == _wkey(runs[1]) and len(runs[0]) > 0:
+                stable, v = True, cand
+                break
         if not stable:
             unstable += 1
         os.makedirs(rdir, exist_ok=True)
